@@ -218,7 +218,7 @@ def prim_family(world: World, res: Result, tier: str):
         res.add(Obligation("prim/Decoder::bits8", "undecided", str(e)))
 
 
-def prim_stubs(world):
+def prim_stubs(world, max_more=2):
     """the pallas-codec primitives (verified on their own in prim/*) as havoc stubs: arbitrary result, arbitrary INV state"""
     def bits8_ok(ex, s):
         return BV(z3.BitVec(fresh("bits"), 8), 8, False)
@@ -244,7 +244,7 @@ def prim_stubs(world):
         st.ghost = dict(st.ghost)
         st.ghost["bits"] = n + 1
         res = inner_bit(ex, st, c, args, dty)
-        if n >= 2:
+        if n >= max_more:
             from mirsym.exec import Effect
 
             def stop(s):
@@ -297,6 +297,7 @@ def dec_family(world: World, res: Result, tier: str):
     try:
         fn = world.fn("Constant", "decode", "Decode<'_>")
         stubs = dict(stubs_common)
+        stubs.update(prim_stubs(world, max_more=4))  # type-tag lists up to 4 tags: [7,7,6,t..] / [7,5,7,5]
         stubs["decode_constant_value"] = cv_stub
         run_fn(world, res, "dec/Constant::decode", fn, lambda ex, st, d: ([d], None), stubs, min(maxlen, 10), tier, max_paths=20000)
     except Unsupported as e:
